@@ -119,6 +119,11 @@ def finalize_cfg(cfg):
     if 'cpu_cost' in cfg:
         if B < 1024 or conf.get('logCompactionBatchSize', 1 << 16) < 64:
             cfg['cpu_cost'] = min(cfg['cpu_cost'], 1e-4)
+        if B < 1024:
+            # chunked entries cost ~100 bytes of framing per chunk and a lagging follower is sent the whole tail again
+            # after every reset reply; TcpConnection buffers without limit, so behind a 4 KiB socket the leader's
+            # write buffer grows by the megabyte and the follower only ever sees stale rounds (overload, see 8.3)
+            cfg['cap'] = max(cfg.get('cap', 1 << 16), 1 << 16)
         if B < 30:
             cfg['cpu_cost'] = min(cfg['cpu_cost'], 2e-5)
             cfg['cap'] = max(cfg.get('cap', 1 << 16), 1 << 16)
